@@ -7,7 +7,7 @@ from pysmt.environment import Environment
 from pysmt.solvers.eager import EagerModel
 
 from vf import bp as B
-from vf.bp import BOOL, INT, REAL, STRING, BV, is_bv, is_arr, app, const, sym, show
+from vf.bp import BOOL, INT, REAL, STRING, BV, is_bv, is_arr, is_fun, app, const, sym, show
 from vf.refsem import (Evaluator, reftype, reffv, val_eq, default_value, Unconstrained, NoSemantics,
                        IllTyped, ArrV)
 from vf.gen import G, Cfg
@@ -191,6 +191,104 @@ def judge(run, bp, assign, present, completion, subcheck):
                  kind, detail, show(bp), assign, sorted(present), completion, show(loc)))
 
 
+def sequence_outcome(bp, steps):
+    """Several models of one environment asked in a row about sub-terms of one formula (a model object is cheap
+    and evaluation goes through the environment's long-lived substituter / simplifier): every answer must be the
+    exact value, whatever was asked - or failed - before.  steps: [(sub-term index, assign, present, completion)]
+    -> None | (kind, detail, step index)"""
+    env = Environment()
+    with env:
+        try:
+            f = pys.build(env, bp)
+        except Exception:
+            return ("skip-rejected", "", 0)
+        b0 = pys.decode(f)
+        subs = [x for x in B.subterms(b0) if x[0] not in ("CONST",)] or [b0]
+        syms = {n: t for (n, t) in reffv(b0)}
+        nfailed = 0
+        for idx, (si, assign, present, completion) in enumerate(steps):
+            sb = subs[si % len(subs)]
+            try:
+                ty = reftype(sb)
+            except IllTyped:
+                continue
+            if is_fun(ty):
+                continue
+            sf = pys.build(env, sb)
+            massign = {pys.build(env, sym(n, t)): pys.build(env, value_bp(t, assign[n])) for n, t in syms.items() if n in present}
+            model = EagerModel(massign, env)
+            ssyms = {n: t for (n, t) in reffv(sb)}
+            missing = [n for n in ssyms if n not in present]
+            full = dict(assign)
+            for n in missing:
+                full[n] = default_value(ssyms[n])
+            try:
+                expected = Evaluator(full, {}).eval(sb)
+            except Unconstrained:
+                expected = None
+            legit_fail = expected is None or (missing and (not completion or any(not COMPLETABLE(ssyms[n]) for n in missing)))
+            try:
+                res = model.get_value(sf, model_completion=completion)
+            except Exception as e:
+                if legit_fail:
+                    nfailed += 1
+                    continue
+                return ("sequence-raised", "step %d: %s: %s" % (idx, type(e).__name__, e), idx)
+            if legit_fail:
+                continue
+            if not res.is_constant():
+                return ("sequence-nonconstant", "step %d: %s" % (idx, res), idx)
+            got = Evaluator({}, {}).eval(pys.decode(res))
+            if not val_eq(got, expected, ty, {}):
+                return ("sequence-value", "step %d: sub-term %s under %r: expected %r got %r (%d earlier evaluations failed)" % (
+                    idx, show(sb, 120), {k: assign[k] for k in present if k in ssyms}, expected, got, nfailed), idx)
+    return ("ok", nfailed, len(steps))
+
+
+def judge_sequence(run, bp, steps):
+    try:
+        out = sequence_outcome(bp, steps)
+    except NoSemantics:
+        run.discard("no-semantics")
+        return
+    if out[0] == "skip-rejected":
+        run.discard("rejected")
+        return
+    run.case(key=("seq", bp, repr(steps)), nontrivial=len(steps) >= 2,
+             sample={"formula": show(bp, 120), "steps": len(steps)} if len(steps) > 2 else None)
+    run.cls("sequence")
+    if out[0] == "ok":
+        if out[1]:
+            run.cls("sequence-with-failed-evaluation")
+        return
+    run.fail({"subcheck": "model:" + out[0]}, {"bp": bp, "steps": steps},
+             "%s: %s\n formula=%s" % (out[0], out[1], show(bp)))
+
+
+def sequence_strategy(cfg):
+    @st.composite
+    def s(draw):
+        g = G(cfg=cfg, rnd=draw(st.randoms(use_true_random=True)))
+        t = g.term(g.ty())
+        syms = sorted(reffv(t), key=repr)
+        steps = []
+        for _ in range(g.rnd.randint(2, 5)):
+            assign = g.interp(syms, {})
+            present = [n for (n, _) in syms if g.pct(80)]
+            steps.append((g.rnd.randrange(64), assign, present, g.pct(50)))
+        return t, steps
+    return s()
+
+
+def shard_sequence(shard, seed, n, cfgname):
+    run = Run(PID)
+
+    def body(case):
+        judge_sequence(run, *case)
+    drive(body, sequence_strategy(CFGS[cfgname]), n, derive_seed(seed, "c02seq", cfgname, shard))
+    return run
+
+
 CFGS = {
     "general": Cfg(theories={"bool", "int", "real", "bv", "str", "arr"}, max_depth=4, pow=True),
     "shallow": Cfg(theories={"bool", "int", "real", "bv", "str", "arr"}, max_depth=2, same_child=20),
@@ -262,10 +360,13 @@ def main():
     for name, wgt in {"general": 4, "shallow": 3, "str": 2, "bv": 2, "arr": 3, "arith": 2}.items():
         for sh in range(wgt):
             jobs.append((shard_random, dict(shard=sh, seed=chk.seed, n=per, cfgname=name)))
+    for name in ("general", "arith", "arr", "shallow"):
+        jobs.append((shard_sequence, dict(shard=0, seed=chk.seed, n=per // 2, cfgname=name)))
     nb = 8
     for sh in range(nb):
         jobs.append((shard_bv, dict(shard=sh, nshards=nb, wmax=wmax)))
     chk.add(run_shards(jobs))
+    chk.floor("sequence-with-failed-evaluation", 100)
     chk.exhaustive.append("every BV operator x every operand value (operands as symbols), widths 1..%d" % wmax)
     chk.floor("partial", 1000)
     chk.floor("no-completion", 1000)
@@ -277,7 +378,10 @@ def main():
 def replay(rec):
     run = Run(PID, known=[])
     c = rec["case"]
-    judge(run, c["bp"], c["assign"], c["present"], c["completion"], "replay")
+    if "steps" in c:
+        judge_sequence(run, c["bp"], [tuple(x) for x in c["steps"]])
+    else:
+        judge(run, c["bp"], c["assign"], c["present"], c["completion"], "replay")
     if run.violations:
         print("VIOLATION property=%s replay=(replayed)" % PID)
         print(run.violations[0]["detail"])
